@@ -1,5 +1,6 @@
 pub mod containers;
 pub mod disasm;
+pub mod json;
 pub mod types;
 pub mod value;
 
@@ -9,8 +10,10 @@ pub fn generate(family: &str, seed: u64, n: usize, tier: &str, emit: &mut dyn Fn
         "ds" => containers::generate_ds(seed, n, tier, emit),
         "vmap" => containers::generate_vmap(seed, n, tier, emit),
         "word" => value::generate_word(seed, n, tier, emit),
+        "json" => json::generate(seed, n, tier, emit),
         "merge" => types::generate_merge(seed, n, tier, emit),
         "fold" => value::generate_fold(seed, n, tier, emit),
+        "size" => value::generate_size(seed, n, tier, emit),
         _ => panic!("unknown family {family}"),
     }
 }
@@ -21,8 +24,10 @@ pub fn eval(family: &str, payload: &str) -> String {
         "ds" => containers::eval_ds(payload),
         "vmap" => containers::eval_vmap(payload),
         "word" => value::eval_word(payload),
+        "json" => json::eval(payload),
         "merge" => types::eval_merge(payload),
         "fold" => value::eval_fold(payload),
+        "size" => value::eval_size(payload),
         _ => format!("err unknown-family-{family}"),
     }
 }
